@@ -45,9 +45,9 @@ static Plan gen_life(uint64_t seed, const Op &opts) {
     int nops = (int) opts.geti("nops", 10);
     bool big = c.n >= 500;
     static const char *kinds[] = {"encrypt", "gate", "gate", "export_cloud", "export_secret", "export_ct", "import_cloud", "import_secret", "import_ct", "lowlevel", "thread",
-                                  "quad", "delete_ct", "delete_imported", "params_io", "key2", "lowkey"};
+                                  "quad", "delete_ct", "delete_imported", "params_io", "key2", "lowkey", "thread_alloc"};
     for (int i = 0; i < nops; i++) {
-        const char *k = kinds[r.below(17)];
+        const char *k = kinds[r.below(18)];
         if (big && !strcmp(k, "lowkey")) k = "gate";
         if (big && (!strcmp(k, "key2"))) k = "gate";
         Op o; o.kind = "op"; o.set("k", k).setu("s", r.next()).seti("x", (int) r.below(8)).seti("y", (int) r.below(8)).seti("z", (int) r.below(8)).seti("tr", (int) r.below(2));
@@ -103,6 +103,14 @@ static void *thread_body(void *v) {
         j->L->r->ev.bytes(c->coefsT, 4096);
         delete_IntPolynomial(a); delete_TorusPolynomial(b); delete_TorusPolynomial(c);
     }
+    return nullptr;
+}
+
+// objects of the Lagrange (FFT) domain allocated by a thread that exits before anybody uses them
+struct AllocJob { const TGswParams *gp; const TLweParams *tp; TGswSampleFFT *g; TLweSampleFFT *t; LagrangeHalfCPolynomial *lh; };
+static void *alloc_body(void *v) {
+    AllocJob *j = (AllocJob *) v;
+    j->g = new_TGswSampleFFT(j->gp); j->t = new_TLweSampleFFT(j->tp); j->lh = new_LagrangeHalfCPolynomial_array(2, 1024);
     return nullptr;
 }
 
@@ -228,6 +236,34 @@ static void exec_life(const Plan &p, RunResult &r) {
             }
             delete_LweSample(xin); delete_LweSample(v);
             r.probes.add((x & 2) ? "lowkey_bk_deleted_first" : "lowkey_fft_deleted_first");
+        } else if (k == "thread_alloc") {
+            // allocation and use on different threads: the allocating thread is gone when the objects are first used as FFT
+            // destinations / sources; the same conversions through objects allocated here must give the same bytes
+            const TGswParams *gp = L.params->tgsw_params; const TLweParams *tp = gp->tlwe_params;
+            AllocJob j{gp, tp, nullptr, nullptr, nullptr}; pthread_t th;
+            pthread_create(&th, nullptr, alloc_body, &j); pthread_join(th, nullptr);
+            TGswSampleFFT *g2 = new_TGswSampleFFT(gp); TLweSampleFFT *t2 = new_TLweSampleFFT(tp);
+            TGswSample *src = new_TGswSample(gp), *b1 = new_TGswSample(gp), *b2 = new_TGswSample(gp);
+            tGswSymEncryptInt(src, 1 + (x & 1), tp->alpha_min, L.sk->tgsw_key);
+            tGswToFFTConvert(j.g, src, gp); tGswToFFTConvert(g2, src, gp);
+            tGswFromFFTConvert(b1, j.g, gp); tGswFromFFTConvert(b2, g2, gp);
+            bool same = true;
+            for (int q = 0; q < gp->kpl && same; q++) for (int u = 0; u <= tp->k && same; u++) same = memcmp(b1->all_sample[q].a[u].coefsT, b2->all_sample[q].a[u].coefsT, (size_t) tp->N * 4) == 0;
+            TLweSample *ts = new_TLweSample(tp), *tb1 = new_TLweSample(tp), *tb2 = new_TLweSample(tp);
+            tLweSymEncryptZero(ts, tp->alpha_min, &L.sk->tgsw_key->tlwe_key);
+            tLweToFFTConvert(j.t, ts, tp); tLweToFFTConvert(t2, ts, tp); tLweFromFFTConvert(tb1, j.t, tp); tLweFromFFTConvert(tb2, t2, tp);
+            for (int u = 0; u <= tp->k && same; u++) same = memcmp(tb1->a[u].coefsT, tb2->a[u].coefsT, (size_t) tp->N * 4) == 0;
+            IntPolynomial *ip = new_IntPolynomial(1024); TorusPolynomial *o1 = new_TorusPolynomial(1024), *o2 = new_TorusPolynomial(1024);
+            for (int q = 0; q < 1024; q++) ip->coefs[q] = (q * 7 + x) % 5 - 2;
+            LagrangeHalfCPolynomial *l2 = new_LagrangeHalfCPolynomial(1024);
+            IntPolynomial_ifft(j.lh, ip); IntPolynomial_ifft(l2, ip); TorusPolynomial_fft(o1, j.lh); TorusPolynomial_fft(o2, l2);
+            if (same) same = memcmp(o1->coefsT, o2->coefsT, 4096) == 0;
+            if (!same) r.v.raise("thread-dependent", "C16.alloc-thread", "FFT conversions through objects allocated by a thread that has exited differ from the same conversions through objects allocated by the calling thread");
+            r.ev.bytes(o1->coefsT, 4096); r.ev.u64(obs::hash_tlwe(tb1, tp->N, tp->k));
+            delete_LagrangeHalfCPolynomial(l2); delete_LagrangeHalfCPolynomial_array(2, j.lh); delete_IntPolynomial(ip); delete_TorusPolynomial(o1); delete_TorusPolynomial(o2);
+            delete_TLweSample(ts); delete_TLweSample(tb1); delete_TLweSample(tb2); delete_TGswSample(src); delete_TGswSample(b1); delete_TGswSample(b2);
+            delete_TGswSampleFFT(j.g); delete_TGswSampleFFT(g2); delete_TLweSampleFFT(j.t); delete_TLweSampleFFT(t2);
+            r.probes.add("objects_allocated_by_exited_thread");
         } else if (k == "key2" && L.sks2.size() < 1) {
             L.sks2.push_back(new_random_gate_bootstrapping_secret_keyset(L.params));
         }
